@@ -54,9 +54,15 @@ def parseVT (s : String) : Option VisitType :=
   | "nodict" => some .noDict | "absent" => some .absent | "random" => some .random
   | "dataframe" => some .dataframe | "unknown" => some .unknown | _ => none
 
+/-- python's `str.isspace` on ASCII: TAB, LF, VT, FF, CR, FS, GS, RS, US and the blank (`"\x0b\x0c ".strip() == ""`);
+    Lean's `Char.isWhitespace` knows four of them only. -/
+def pyAsciiSpace (c : Char) : Bool :=
+  let n := c.toNat
+  (9 ≤ n && n ≤ 13) || (28 ≤ n && n ≤ 32)
+
 def parseFeat (s : String) : Option Feat :=
   if s == "n" then some .notStr
-  else if s.startsWith "s" then (fun n => Feat.str n n.trimAscii.isEmpty) <$> hexDecode (s.drop 1).toString
+  else if s.startsWith "s" then (fun n => Feat.str n (n.toList.all pyAsciiSpace)) <$> hexDecode (s.drop 1).toString
   else none
 
 def parseFeatures (s : String) : Option Features :=
